@@ -20,7 +20,7 @@ EXHAUSTIVE = {"quick": True, "thorough": True}
 NSHARDS = {"quick": 4, "thorough": 8}
 THRESHOLDS = {"quick": {"c14:positions": 4096, "c14:ids": 4096, "c14:unknown-id": 10, "c14:unknown-id-forms": 60, "c14:unknown-token": 20,
                         "c14:random-seq": 500, "c14:legacy-vocab": 450, "c14:legacy-vocab:descending": 150, "c14:legacy-vocab:random": 150, "c14:prefix-pairs": 1225, "c14:legacy-unknown": 100,
-                        "c14:legacy-codec": 450, "c14:deprecated-special-token-lookups": 8, "c14:legacy-rejudged-after-views": 450, "c14:cf-perm": 50}}
+                        "c14:legacy-codec": 450, "c14:deprecated-special-token-lookups": 8, "c14:legacy-rejudged-after-views": 450, "c14:legacy-resized-object": 250, "c14:cf-perm": 50}}
 THRESHOLDS["thorough"] = dict(THRESHOLDS["quick"])
 ANCHORS = ["maze_dataset.utils:corner_first_ndindex",
            "maze_dataset.tokenization.maze_tokenizer:MazeTokenizer._token_arr",
@@ -146,14 +146,37 @@ def run(ctx):
             ctx.sample(dict(kind="random-seq", ids=ids[:8], tokens=toks[:8]))
     # legacy vocabularies: every (mode, size) is built three times in this process - in ascending, descending and a random
     # order of sizes - so that a vocabulary that depends on which other tokenizers were built before is seen
-    def legacy_case(mode, n, order_tag):
+    def legacy_case(mode, n, order_tag, resized_from=None):
         case = dict(mode=mode.value, max_grid_size=n, construction_order=order_tag)
         with ctx.guard("C14/legacy-vocab", case):
             # the size as a python int or as a numpy scalar of any integer type that holds it
             mgs_forms = [int, np.int64, np.int8, np.uint8, np.int16, np.int32]
             mgs = mgs_forms[(n + len(order_tag)) % len(mgs_forms)](n)
             case["max_grid_size_type"] = type(mgs).__name__
-            lt = MazeTokenizer(tokenization_mode=mode, max_grid_size=mgs)
+            if resized_from is None:
+                lt = MazeTokenizer(tokenization_mode=mode, max_grid_size=mgs)
+            else:
+                # one tokenizer object that already served another grid size: some of its views were read, then the size was changed
+                # and the caches cleared (the class is a mutable dataclass and `clear_cache` is its way to re-derive the vocabulary)
+                n0 = resized_from
+                case["resized_from"] = n0
+                lt = MazeTokenizer(tokenization_mode=mode, max_grid_size=n0)
+                r0 = ctx.sub_rng("resize", mode.value, n0, n)
+                views = ["token_arr", "tokenizer_map", "vocab_size", "node_strings_map", "padding_token_index", "n_tokens", "name",
+                         "coordinate_tokens_coords", "coordinate_tokens_ids", "encode"]
+                picked = [views[int(i)] for i in r0.permutation(len(views))[: int(r0.integers(0, len(views) + 1))]]
+                case["views_read_before"] = picked
+                for attr in picked:
+                    try:
+                        if attr == "encode":
+                            lt.encode(SPECIALS[:3])
+                        else:
+                            getattr(lt, attr)
+                    except Exception:  # noqa: BLE001
+                        ctx.tally("c14:legacy-view-unavailable(not judged)")
+                lt.max_grid_size = mgs
+                lt.clear_cache()
+                ctx.tally("c14:legacy-resized-object")
             arr = list(lt.token_arr)
             mp = lt.tokenizer_map
             ctx.ev(); ctx.tally("c14:legacy-vocab"); ctx.tally(f"c14:legacy-vocab:{order_tag}"); ctx.nontrivial("legacy", mode.value, n)
@@ -240,6 +263,10 @@ def run(ctx):
             pairs = [pairs[int(i)] for i in ctx.sub_rng("legacy-order").permutation(len(pairs))]
         for mode, n in pairs:
             legacy_case(mode, n, order_tag)
+    r_rs = ctx.sub_rng("legacy-resize")
+    for mode, n in mine_pairs:
+        for n0 in {int(r_rs.integers(1, 51)), max(1, n - 1), min(50, n + 3)} - {n}:
+            legacy_case(mode, n, "resized-object", resized_from=n0)
     # corner-first ordering: permutation + prefix property for all pairs
     cf = {}
     for n in range(1, 51):
